@@ -56,13 +56,26 @@ async fn do_proxy_request(
         .unwrap_or(host);
     // Needs an owned copy so that the upgrade task can access it
     let host = Bytes::copy_from_slice(host.as_bytes());
-    let port = target.port_u16().unwrap_or_else(|| {
-        if req.uri().scheme() == Some(&Scheme::HTTPS) {
-            443
-        } else {
-            80
+    let port = match target.port_u16() {
+        Some(port) => port,
+        None => {
+            // `port_u16` is `None` not only when no port is written: `host:65536` and `host:http`
+            // name a port that does not exist, which is not a request for the default port
+            let host_port = target.as_str().rsplit('@').next().unwrap_or_default();
+            let port_text = host_port.get(target.host().len()..).unwrap_or_default();
+            if !matches!(port_text, "" | ":") {
+                return Ok(make_static_body(
+                    StatusCode::BAD_REQUEST,
+                    b"Invalid port in the request target",
+                ));
+            }
+            if req.uri().scheme() == Some(&Scheme::HTTPS) {
+                443
+            } else {
+                80
+            }
         }
-    });
+    };
 
     let Ok(mux_stream) = request_tcp_channel(stream_command_tx_permit, host, port).await else {
         return Ok(make_static_body(
